@@ -32,7 +32,33 @@ REG.contract(
 NAME_INV = ("all(len(self.labels[k]) <= 63 for k in range(len(self.labels))) "
             "and wirelen(self.labels, len(self.labels)) <= 255 "
             "and all(self.labels[k] != b'' for k in range(len(self.labels) - 1))")
-REG.declare_class("dns.name.Name", inv=NAME_INV, labels=LABELS)
+
+
+def _mk_name(f):
+    import dns.name
+
+    return dns.name.Name(f["labels"])
+
+
+def _gen_name(rng):
+    import dns.name
+    from pyvc.native import SPECIAL
+
+    while True:
+        n = rng.choice([0, 1, 1, 2, 2, 3, 4])
+        labels = []
+        for _ in range(n):
+            ln = rng.choice([1, 1, 2, 3, 5, 62, 63])
+            labels.append(bytes(rng.choice(SPECIAL + [0x41, 0x61, 0x5A, 0x7A]) for _ in range(ln)))
+        if rng.random() < 0.6:
+            labels.append(b"")
+        try:
+            return dns.name.Name(labels)
+        except Exception:
+            continue
+
+
+REG.declare_class("dns.name.Name", inv=NAME_INV, make=_mk_name, gen=_gen_name, labels=LABELS)
 NAME = T.obj("dns.name.Name")
 
 VALIDATE_RAISES = lambda L: [
